@@ -26,6 +26,11 @@ def main(argv):
         mutants = json.load(f)
     wt = "/tmp/verif-selftest-wt"
     evd = "/tmp/verif-selftest-evidence"
+    # one run at a time: two runs would edit the same scratch worktree under each other (and the fact cache, keyed by
+    # source hash, would be filled with facts of the other run's mutant)
+    import fcntl
+    lock = open("/tmp/verif-selftest.lock", "w")
+    fcntl.flock(lock, fcntl.LOCK_EX)
     sh("git -C /repo worktree remove --force %s" % wt)
     shutil.rmtree(wt, ignore_errors=True)
     r = sh("git -C /repo worktree add --detach %s HEAD" % wt)
